@@ -20,17 +20,19 @@
 (*                       BinOps (R op2 C) | ScalarOps (scalar s2)          *)
 (*   i2, j2, s2          write position / scalar of op2                    *)
 (*   ckind, cml, cmu, cpat   the fresh operand C of a binary op2           *)
-(*   pf                  0, or a "prefill" value: A (and B unless it is an *)
-(*                       Identity) is first handed to the public           *)
+(*   pf                  0, or a "prefill" value: A (and B) is first       *)
+(*                       handed to the public                              *)
 (*                       Matrix::fill(pf), which sets the WHOLE backing    *)
 (*                       buffer - for Banded storage also the corner cells *)
 (*                       of the band buffer that belong to no entry - and  *)
 (*                       the pattern is then written into EVERY writable   *)
 (*                       entry (zeros where the pattern has none).         *)
-(*                       fill itself is not specified by C17; the meaning  *)
+(*                       Level A (C17_Fill): the writable entries read pf  *)
+(*                       afterwards, the others are unchanged - an         *)
+(*                       Identity operand stays the identity; the meaning  *)
 (*                       after the writes is fixed by the readable entries *)
-(*                       alone (Level A), while the Level-B model carries  *)
-(*                       the unaddressable cells.                          *)
+(*                       alone, while the Level-B model carries the        *)
+(*                       unaddressable cells.                              *)
 (* Steps of a scenario: ctorA, [prefillA,] fillA,                          *)
 (*                      [ctorB, [prefillB,] fillB,] op,                    *)
 (*                      [[ctorC, fillC,] op2].                             *)
@@ -77,12 +79,9 @@ StA(sc) == CtorStorage(sc.ctor, sc.n, sc.ml, sc.mu)
 StB(sc) == CtorStorage(BCtor(sc.bkind), sc.n, sc.bml, sc.bmu)
 InitA(sc) == InitData(sc.ctor, sc.pat, sc.n)
 HasPf(sc)  == sc.pf # 0
-HasPfB(sc) == sc.pf # 0 /\ sc.bkind # "I"
+HasPfB(sc) == sc.pf # 0
 WsA(sc) == FillWritesX(sc.pat, StA(sc), sc.n, HasPf(sc))
 WsB(sc) == FillWritesX(sc.bpat, StB(sc), sc.n, HasPfB(sc))
-\* what the Level-B model shows after fill(v) (NOT a contract clause: C17 does not specify fill): the stored,
-\* i.e. writable, entries become v
-FillMeaning(st, d, v) == [i \in 1..Len(d) |-> [j \in 1..Len(d) |-> IF Writable(st, i - 1, j - 1) THEN v ELSE d[i][j]]]
 
 StC(sc) == CtorStorage(BCtor(sc.ckind), sc.n, sc.cml, sc.cmu)
 WsC(sc) == FillWrites(sc.cpat, StC(sc), sc.n)
@@ -142,13 +141,16 @@ ClauseCtorA(sc, obsPanic, obs) == C17_Ctor(sc.ctor, sc.n, InitA(sc), obsPanic, o
 ClauseFillA(sc, dA, obsPanic, obs) == C17_Writes(StA(sc), dA, WsA(sc), obsPanic, obs)
 ClauseCtorB(sc, obsPanic, obs) == C17_Ctor(BCtor(sc.bkind), sc.n, <<>>, obsPanic, obs)
 ClauseFillB(sc, dB, obsPanic, obs) == C17_Writes(StB(sc), dB, WsB(sc), obsPanic, obs)
-\* swap_rows and fill are not part of C17's statement: no clause (Level-B comparison only, reported as drift)
+ClausePrefillA(sc, dA, obsPanic, obs) == C17_Fill(StA(sc), dA, sc.pf, obsPanic, obs)
+ClausePrefillB(sc, dB, obsPanic, obs) == C17_Fill(StB(sc), dB, sc.pf, obsPanic, obs)
+\* swap_rows is not part of C17's statement: no clause (Level-B comparison only, reported as drift)
 ClauseOp(sc, dA, dB, obsPanic, obs, obsVal) ==
   CASE sc.op = "read" -> ~obsPanic /\ C17_Read(dA, obs)
     [] sc.op = "write" -> C17_Write(StA(sc), dA, sc.i, sc.j, WRITEVAL, obsPanic, obs)
     [] sc.op \in BinOps -> C17_Bin(sc.op, dA, dB, obsPanic, obs)
     [] sc.op \in ScalarOps -> C17_Scalar(sc.op, dA, sc.s, obsPanic, obs)
     [] sc.op = "is_identity" -> C17_IsIdentity(dA, obsPanic, obsVal)
+    [] sc.op = "fill" -> C17_Fill(StA(sc), dA, sc.s, obsPanic, obs)
     [] OTHER -> TRUE
 
 ClauseName(sc) ==
@@ -157,6 +159,7 @@ ClauseName(sc) ==
     [] sc.op \in BinOps -> "binop"
     [] sc.op \in ScalarOps -> "scalar"
     [] sc.op = "is_identity" -> "is_identity"
+    [] sc.op = "fill" -> "fill"
     [] OTHER -> "none"
 
 (* ---- expected results of a scenario by the contract (for the REPLAY record) ---- *)
@@ -171,7 +174,8 @@ ExpectRes(sc) ==
   CASE sc.op = "write" -> IF ExpectPanic(sc) THEN ExpectA1(sc) ELSE WriteMeaning(ExpectA1(sc), sc.i, sc.j, WRITEVAL)
     [] sc.op \in BinOps -> BinMeaning(sc.op, ExpectA1(sc), ExpectB1(sc))
     [] sc.op \in ScalarOps -> ScalarMeaning(sc.op, ExpectA1(sc), sc.s)
-    [] OTHER -> ExpectA1(sc)          \* read / is_identity; swap_rows / fill: not specified by C17 (A before the op)
+    [] sc.op = "fill" -> FillMeaning(StA(sc), ExpectA1(sc), sc.s)
+    [] OTHER -> ExpectA1(sc)          \* read / is_identity; swap_rows: not specified by C17 (A before the op)
 ExpectIsId(sc) == ExpectA1(sc) = EyeD(sc.n)
 ExpectC1(sc) == WritesMeaning(CtorMeaning(BCtor(sc.ckind), sc.n, <<>>), WsC(sc), 1)
 \* second step; stR = storage of the first result (an implementation choice, taken from the Level-B model / the code)
